@@ -1,5 +1,6 @@
-"""Generator for C17: diploid ground truth (SNVs), error-free reads, and a history description
-(phase | custom phased VCF) -> haplotag -> (unphase | partial unphase | nothing) -> haplotagphase."""
+"""Generator for C17: diploid ground truth (SNVs, some of them multi-allelic: two ALT alleles, allele ids 0..2), error-free
+reads, and a history description (phase | custom phased VCF) -> haplotag -> (unphase | partial unphase | nothing) ->
+haplotagphase.  A variant is {"pos", "ref", "alt"} (biallelic) or additionally "alts": [alt1, alt2] (then "alt" = alt1)."""
 import os
 
 import pysam
@@ -8,8 +9,23 @@ from . import sim
 from .c10_gen import make_alignment, PS_FMT, FLAG_PAIRED, FLAG_PROPER, FLAG_REV, FLAG_MREV, FLAG_R1, FLAG_R2, FLAG_DUP, FLAG_SEC, FLAG_SUPP
 
 
+def alts_of(v):
+    return v.get("alts") or [v["alt"]]
+
+
+def make_alignment_multi(seq, vs, alleles, st, en):
+    """make_alignment for allele ids >= 2: the read is built against a biallelic view of every variant whose ALT is
+    the allele the haplotype carries; the truth records the real allele ids"""
+    view = [{"pos": v["pos"], "ref": v["ref"], "alt": alts_of(v)[max(a, 1) - 1]} for v, a in zip(vs, alleles)]
+    m = make_alignment(seq, view, [1 if a > 0 else 0 for a in alleles], st, en)
+    if m is None:
+        return None
+    return m[0], m[1], m[2], [[i, alleles[i]] for i, _ in m[3]]
+
+
 def gen_case(rng, size=1.0):
     n_contigs = rng.choice([1, 1, 2])
+    multi = rng.random() < 0.5          # some multi-allelic sites (only haplotagphase reads them: --mav is its default)
     samples = ["S1"] if rng.random() < 0.7 else ["S1", "S2"]
     contigs, variants, haps = {}, {}, {s: {} for s in samples}
     for ci in range(n_contigs):
@@ -19,10 +35,21 @@ def gen_case(rng, size=1.0):
         contigs[name] = seq
         vs = sim.make_variants(rng, name, seq, rng.randrange(5, 26), kinds=("snv",), min_gap=rng.choice([20, 30, 45]))
         variants[name] = [{"pos": v.pos, "ref": v.ref, "alt": v.alt} for v in vs]
+        if multi:
+            for v in variants[name]:
+                if rng.random() < 0.3:
+                    v["alts"] = [v["alt"], rng.choice([b for b in "ACGT" if b not in (v["ref"], v["alt"])])]
         for s in samples:
             h0, h1 = [], []
-            for _ in vs:
-                if rng.random() < 0.8:
+            for v in variants[name]:
+                if "alts" in v:
+                    # every heterozygous combination of the three alleles in both orientations, rarely homozygous
+                    if rng.random() < 0.9:
+                        a, b = rng.sample(range(3), 2)
+                    else:
+                        a = b = rng.randrange(3)
+                    h0.append(a); h1.append(b)
+                elif rng.random() < 0.8:
                     a = rng.randrange(2); h0.append(a); h1.append(1 - a)
                 else:
                     a = rng.randrange(2); h0.append(a); h1.append(a)
@@ -42,6 +69,7 @@ def gen_case(rng, size=1.0):
         for name, seq in contigs.items():
             L = len(seq)
             vs = variants[name]
+            mk_aln = make_alignment_multi if multi else make_alignment
             depth = rng.uniform(3, 9) * min(size, 2)
             n_reads = max(2, int(depth * L / 250))
             for _ in range(n_reads):
@@ -61,7 +89,7 @@ def gen_case(rng, size=1.0):
                                 st = b
                     if en - st < 40:
                         return None
-                    m = make_alignment(seq, vs, alleles, st, en)
+                    m = mk_aln(seq, vs, alleles, st, en)
                     if m is None:
                         return None
                     return {"name": f"r{rid}_{s}", "chrom": name, "start": m[0], "cigar": m[1], "seq": m[2], "flag": flag, "mapq": mapq,
@@ -101,10 +129,13 @@ def gen_case(rng, size=1.0):
                 bx_of[a["name"]] = f"{a['sample']}_b{(w + a['hap']) % 2}" if off < bx_cutoff else None
             if bx_of[a["name"]] is not None:
                 a["tags"].append(["BX", bx_of[a["name"]]])
-    source = "phase" if rng.random() < 0.6 else "custom"
+    # `whatshap phase` does not read multi-allelic records: only a generator-written V phases them
+    source = "phase" if rng.random() < (0.25 if multi else 0.6) else "custom"
     unphase = rng.choice(["cli", "cli", "cli", "partial", "partial", "none"])
     hist = {"source": source, "unphase": unphase, "foreign": unphase == "partial" and rng.random() < 0.4,
             "keep": {s: {c: [rng.random() < 0.35 for _ in variants[c]] for c in contigs} for s in samples}}
+    if multi and rng.random() < 0.2:
+        hist["no_mav"] = True          # haplotagphase --no-mav: multi-allelic records are neither read nor written
     if source == "custom":
         # true haplotypes; blocks end at the gaps (and sometimes elsewhere: then reads overlap two phase sets);
         # arbitrary phase set ids, arbitrary orientation per block
@@ -132,7 +163,7 @@ def gen_case(rng, size=1.0):
     dups = {}
     if rng.random() < 0.35:
         for c in contigs:
-            dups[c] = sorted(i for i in range(len(variants[c])) if rng.random() < 0.2)
+            dups[c] = sorted(i for i in range(len(variants[c])) if rng.random() < 0.2 and "alts" not in variants[c][i])
     return {"kind": "c17", "dups": dups, "contigs": contigs, "variants": variants, "samples": samples, "haps": haps, "alns": alns,
             "read_groups": read_groups, "history": hist, "gaps": gaps, "bx_cutoff": bx_cutoff}
 
@@ -142,12 +173,12 @@ def write_vcf(case, path, calls):
     recs = []
     for c in case["contigs"]:
         for i, v in enumerate(case["variants"][c]):
-            recs.append({"chrom": c, "pos": v["pos"], "ref": v["ref"], "alts": [v["alt"]], "format": ["GT", "PS"],
+            recs.append({"chrom": c, "pos": v["pos"], "ref": v["ref"], "alts": alts_of(v), "format": ["GT", "PS"],
                          "calls": [calls(s, c, i) for s in case["samples"]]})
             if i in case.get("dups", {}).get(c, []):
                 # second record at the same position, other ALT (a split multi-allelic site): the first record's call with
                 # the haplotypes exchanged, as `bcftools norm -m-` writes a 1|2 site
-                alt2 = next(b for b in "ACGT" if b not in (v["ref"], v["alt"]))
+                alt2 = next(b for b in "ACGT" if b not in [v["ref"]] + alts_of(v))
                 dc = []
                 for s in case["samples"]:
                     k = dict(calls(s, c, i))
